@@ -23,7 +23,7 @@ RULE = ("charts of the five games on a beat grid (so that every writer is exact)
         "value can be the dominant one), SVs for osu/Quaver (coincident SVs agree), ties across columns; every list permuted by one of "
         "{reverse, shuffle, unsorted append, concatenation of halves}; operations: write->read for osu/Quaver/StepMania/BMS, conversions, rate, "
         "full_ln, hitsound_copy (incl. more named samples of one volume at one time than the target has notes), dominant_bpm, scroll_speed, "
-        "sv_normalize; non-trivial = some list with >= 2 rows is really reordered; distinct by hash of canonical JSON")
+        "sv_normalize; every converter at least twice on a chart reordered WITHOUT renumbering its row labels, key sounds of converted notes compared too; non-trivial = some list with >= 2 rows is really reordered; distinct by hash of canonical JSON")
 ASSUMPTIONS = [
     "written files are compared through reamber's own readers (the codecs are tied to reference semantics by C01/C03/C05/C06): "
     "read(write(c)) and read(write(permuted c)) must be the same multisets of objects",
@@ -178,11 +178,18 @@ def generate(rng, tier):
             if op == "hitsound_copy" and rng.random() < 0.4:
                 _crowd(rng, case["map"], case["map2"])
             cases.append(case)
+    # every converter at least twice per run on a chart whose rows were reordered WITHOUT renumbering the row labels
+    # (what sorted(), reverse slicing or a filter leave behind): label-vs-position slips only show there
+    for game in M.GAMES:
+        for conv in CONV[game]:
+            for perm in ("reverse", "shuffle"):
+                cases.append({"game": game, "op": "convert", "map": _grid_spec(rng, game), "map2": _grid_spec(rng, game),
+                              "perm": perm, "pseed": rng.randint(0, 10 ** 6), "conv": conv, "override": None, "keep_labels": True})
     return cases
 
 
 # ------------------------------------------------------------------ implementation side
-def _permute(m, kind, seed):
+def _permute(m, kind, seed, keep_labels=False):
     """same chart, rows of every list in another order"""
     r = random.Random(seed)
     m2 = m.deepcopy()
@@ -197,7 +204,7 @@ def _permute(m, kind, seed):
         elif kind == "shuffle":
             perm = list(range(n))
             r.shuffle(perm)
-            new = type(lst)(lst.df.iloc[perm].reset_index(drop=True))
+            new = type(lst)(lst.df.iloc[perm] if keep_labels else lst.df.iloc[perm].reset_index(drop=True))
         elif kind == "append":
             perm = list(range(n))
             r.shuffle(perm)
@@ -222,13 +229,15 @@ def _prep(game, m):
     return m
 
 
-def _content(m, it, names=None):
-    """per list: the columns that carry chart content"""
+def _content(m, it, names=None, sounds=False):
+    """per list: the columns that carry chart content (sounds=True: also the key sound a note carries - conversions
+    copy it along, and "the same objects" includes it)"""
     out = []
     for k, lst in m.objs.items():
         if names and k not in names:
             continue
-        cols = [c for c in ("offset", "column", "length", "bpm", "multiplier") if c in lst.df.columns]
+        want = ("offset", "column", "length", "bpm", "multiplier") + (("hitsound_file", "sample") if sounds else ())
+        cols = [c for c in want if c in lst.df.columns]
         out.append(M.snapshot_list(type(lst)(lst.df[cols]) if False else _proj(lst, cols), it))
     return out
 
@@ -327,7 +336,7 @@ def _apply(case, m, m_other, it):
             res = res[0]
             if isinstance(res, SMMapSet):
                 res = res.maps[0]
-        return {"t": "lists", "v": _content(res, it, ("hits", "holds", "bpms", "svs"))}
+        return {"t": "lists", "v": _content(res, it, ("hits", "holds", "bpms", "svs"), sounds=True)}
     if op == "rate":
         return {"t": "lists", "v": _content(m.rate(2.0), it)}
     if op == "full_ln":
@@ -377,7 +386,7 @@ def execute(case):
     game = case["game"]
     m = _prep(game, M.build_map(case["map"]))
     m_other = _prep(game, M.build_map(case["map2"]))
-    mp, moved = _permute(m, case["perm"], case["pseed"])
+    mp, moved = _permute(m, case["perm"], case["pseed"], case.get("keep_labels", False))
     if case["op"] == "hitsound_copy":
         mo2, moved2 = _permute(m_other, case["perm"], case["pseed"] + 1)
         moved = moved or moved2
